@@ -229,7 +229,19 @@ def check_identity(case, ctx):
         pool = {}
         aliased = [[pool.setdefault((p[0], p[1]), m.rating(p[0], p[1])) for p in t] for t in job["teams"]]
         variants["value-equal-players-as-one-object"] = guarded_job(m, job, "aliased", aliased)
-    ctx.called(7)
+    # the caller owns what a call returns: scribbling over the returned container must not change what the next call returns
+    m = mk_model(cfg)
+    objs = mk_teams(m, job["teams"])
+    try:
+        raw = m.rate(objs, **call_kwargs(job.get("call", {}))) if job["op"] == "rate" else getattr(m, job["op"])(objs)
+    except Exception as e:  # noqa: BLE001
+        raise Violation(f"raised:{type(e).__name__}", f"{job['op']} raised {e!r}") from None
+    if isinstance(raw, list):
+        for k in range(len(raw)):
+            raw[k] = "scribbled"
+        raw.append("extra")
+    variants["after-caller-modified-the-returned-list"] = guarded_job(mk_model(cfg), job, "after scribble")
+    ctx.called(9)
     for name, res in variants.items():
         if res != base:
             raise Violation("identity-dependent:" + name, f"{cfg['kind']} {job['op']}: variant {name} gives {res!r} != {base!r}"[:900])
@@ -431,8 +443,15 @@ def cold_custom(ctx, seed, tier, shard, nshards, n):
 
     @hseed(seed)
     @settings(max_examples=n, database=None, deadline=None, suppress_health_check=list(HealthCheck))
-    @given(interleaving_cases(min_pre=1))
-    def collect(c):
+    @given(interleaving_cases(min_pre=1), st.booleans(), st.lists(st.integers(0, 3), min_size=2, max_size=4))
+    def collect(c, predictions_only, targets):
+        if predictions_only:
+            # first-use initialisation mostly sits behind the prediction functions: all jobs predict, with different player counts
+            ops = ["predict_draw", "predict_rank", "predict_win"]
+            c["jobs"] = [dict(j, op=ops[(i + targets[0]) % 3]) for i, j in enumerate(c["jobs"])]
+            for j in c["jobs"]:
+                j.pop("call", None)
+        c["on_write"] = [t % len(c["jobs"]) for t in targets]  # preempt right after each of the first shared writes
         cases.append(c)
 
     collect()
@@ -526,7 +545,7 @@ PROPERTY = Property(
         Clause(name="hash-seed-and-call-order", kind="custom", custom=hashseed_custom, check=check_hashcase, quick=400, thorough=4000, shards_quick=4, shards_thorough=16,
                rule="generated calls (some duplicated under a model with another beta) serialised and executed in five fresh child interpreters, each with its own "
                     "PYTHONHASHSEED (0, 1, 2, 4242, random) and its own execution order (forward, reverse, rotated, evens-first); results compared exactly per call"),
-        Clause(name="cold-start-interleavings", kind="custom", custom=cold_custom, check=check_cold, quick=160, thorough=4800, shards_quick=16, shards_thorough=16,
+        Clause(name="cold-start-interleavings", kind="custom", custom=cold_custom, check=check_cold, quick=256, thorough=4800, shards_quick=16, shards_thorough=16,
                rule="the same generated job sets and schedules, each executed in a FRESH child interpreter in which nothing has been called before "
                     "(lazily filled module- or class-level tables, first-use initialisation): results compared with the sequential ones; non-trivial = a "
                     "real preemption took place"),
